@@ -283,7 +283,7 @@ def g_dro_l2(a):
 
 # ------------------------------------------------------------------------------------------------
 VARIANTS = ['f64', 'f32', 'i64', 'i32', 'fortran', 'transposed', 'f32fortran', 'strided', 'readonly', 'zerod', 'csr',
-            'csc']
+            'csc', 'u8', 'u16']
 
 
 def applicable(gen_name, arr_name, variant):
@@ -293,6 +293,8 @@ def applicable(gen_name, arr_name, variant):
         return True
     if variant in ('i64', 'i32'):
         return 'i' in flags
+    if variant in ('u8', 'u16'):       # unsigned integer arrays: integer-valued, non-negative data only
+        return 'i' in flags and float(np.min(vals)) >= 0
     if variant in ('fortran', 'transposed', 'f32fortran'):
         return nd == 2
     if variant == 'strided':
@@ -316,6 +318,10 @@ def make_variant(vals, variant):
         arr = base.astype(np.int64)
     elif variant == 'i32':
         arr = base.astype(np.int32)
+    elif variant == 'u8':
+        arr = base.astype(np.uint8)
+    elif variant == 'u16':
+        arr = base.astype(np.uint16)
     elif variant == 'fortran':
         arr = np.asfortranarray(base)
     elif variant == 'transposed':
